@@ -1,0 +1,15 @@
+//go:build verif
+
+package metrics
+
+// VerifGate, when set by a verification harness, is called right after
+// RecordTokenization has loaded minQuerySize (point 1) or maxQuerySize
+// (point 2) and before it acts on the loaded value. A blocking function
+// turns it into a scheduler gate for deterministic interleaving replay.
+var VerifGate func(point int, loaded int64)
+
+func verifGate(point int, loaded int64) {
+	if f := VerifGate; f != nil {
+		f(point, loaded)
+	}
+}
